@@ -18,9 +18,32 @@ for f in sorted(glob.glob(os.path.join(ROOT, "seeded", "*", "meta.json"))):
                     if t not in sigs:
                         sigs.append(t)
             caught.append("%s (%s)" % (p, "; ".join(sigs[:3])))
+    if d.get("kind") == "harmless":
+        continue
     rows.append((d["seed"], (d.get("title") or "").replace("|", "/")[:110], (d.get("needs") or "").replace("|", "/").replace("\n", " ")[:140],
                  "yes" if d.get("valid_seed") else "NO", ", ".join(caught) if caught else "**missed**"))
 print("| seed | change (files: see seeded/<seed>/patch.diff) | needs | confirmed | caught by |")
 print("|---|---|---|---|---|")
 for r in rows:
     print("| %s | %s | %s | %s | %s |" % r)
+
+hrows = []
+for f in sorted(glob.glob(os.path.join(ROOT, "seeded", "*", "meta.json"))):
+    d = json.load(open(f))
+    if d.get("kind") != "harmless":
+        continue
+    al = []
+    for p, c in sorted(d.get("checks", {}).items()):
+        if c.get("rc") != 0:
+            first = next((l for l in c.get("lines", []) if l.startswith("BROKEN")), "")
+            al.append("%s: %s" % (p, first[:120].replace("|", "/")))
+    hrows.append((d["seed"], (d.get("title") or "").replace("|", "/")[:140], "yes" if d.get("valid_seed") else "NO",
+                  "; ".join(al) if al else "quiet (exit 0)"))
+if hrows:
+    print()
+    print("Harmless refactorings (behaviour-preserving rewrites of the anchored code by independent sub-agents; every check should stay at exit 0):")
+    print()
+    print("| seed | refactoring | confirmed harmless | checks |")
+    print("|---|---|---|---|")
+    for r in hrows:
+        print("| %s | %s | %s | %s |" % r)
